@@ -185,7 +185,16 @@ pub fn comp_string(r: &mut Rng, no_slash: bool) -> String {
     s
 }
 
+/// Type-like names from the wild: registries, brand spellings, other spec types.
+pub const TYPE_VOCABULARY: &[&str] = &[
+    "crates.io", "rubygems", "packagist", "pypi.org", "npmjs", "nuget.org", "maven-central", "go", "golang.org", "github", "bitbucket", "composer", "cocoapods", "CocoaPods", "GitHub", "generic", "deb",
+    "rpm", "docker", "oci", "hex", "conan", "conda", "cran", "swift", "pub", "huggingface", "mlflow", "qpkg", "swid", "alpm", "apk", "bitnami", "cpan", "hackage", "luarocks", "Crates.IO", "RubyGems",
+];
+
 pub fn gen_type(r: &mut Rng) -> String {
+    if r.chance(1, 10) {
+        return r.pick(TYPE_VOCABULARY).to_string();
+    }
     let n = if r.chance(1, 20) { r.range(20, 40) } else { r.range(1, 8) };
     let mut s = String::new();
     s.push(*r.pick(b"abcdefghijklmnopqrstuvwxyzABCDEFGHIJKLMNOPQRSTUVWXYZ") as char);
@@ -384,8 +393,14 @@ pub fn gen_tuple(r: &mut Rng, known: bool) -> Tuple {
         }
     }
     let ver = if r.chance(3, 5) { Some(if r.chance(1, 5) { r.pick(crate::gen::VERSION_VOCABULARY).to_string() } else { comp_string(r, false) }) } else { None };
-    // (rarely: a number of qualifiers around 2^8)
-    let nq = if r.chance(1, 400) { r.range(254, 259) } else { *r.pick(&[0usize, 0, 1, 2, 3, 8, 12, 24]) };
+    // (rarely: a number of qualifiers around 2^8; more often a few dozen)
+    let nq = if r.chance(1, 400) {
+        r.range(254, 259)
+    } else if r.chance(1, 25) {
+        r.range(31, 70)
+    } else {
+        *r.pick(&[0usize, 0, 1, 2, 3, 8, 12, 24])
+    };
     let mut quals: Vec<(String, String)> = Vec::new();
     for _ in 0..nq {
         let have: Vec<String> = quals.iter().map(|(k, _)| k.clone()).collect();
@@ -398,7 +413,32 @@ pub fn gen_tuple(r: &mut Rng, known: bool) -> Tuple {
         let v = if r.chance(1, 3) && (voc.len() > 4 || r.chance(1, 4)) { r.pick(voc).to_string() } else { comp_string(r, false) };
         quals.push((k, v));
     }
+    // the same text in two places (anything remembered per text rather than per place shows):
+    // one time in twelve a component, often a long one, is copied into another
+    let mut ver = ver;
+    if r.chance(1, 12) {
+        let text = if r.coin() { format!("{}+&=@?#%:/ {}", comp_string(r, true), "x".repeat(r.range(20, 40))) } else { name.clone() };
+        let no_slash: String = text.replace('/', "-");
+        let spots = r.below(16) | 1 << r.below(4);
+        if spots & 1 != 0 {
+            name = text.clone();
+        }
+        if spots & 2 != 0 {
+            ver = Some(text.clone());
+        }
+        if spots & 4 != 0 {
+            if let Some(q) = quals.first_mut() {
+                q.1 = text.clone();
+            } else {
+                quals.push(("tag".into(), text.clone()));
+            }
+        }
+        if spots & 8 != 0 && !ns.is_empty() {
+            ns[0] = no_slash.clone();
+        }
+    }
     let checksum = if r.chance(1, 4) { Some(gen_checksum(r, 5)) } else { None };
+    let copy_to_sub = r.chance(1, 30);
     let nsub = *r.pick(&[0usize, 0, 1, 2, 4]);
     let mut sub = Vec::new();
     for _ in 0..nsub {
@@ -407,6 +447,12 @@ pub fn gen_tuple(r: &mut Rng, known: bool) -> Tuple {
             continue;
         }
         sub.push(s);
+    }
+    if copy_to_sub {
+        let t = name.replace('/', "-");
+        if t != "." && t != ".." && !t.is_empty() {
+            sub.push(t);
+        }
     }
     Tuple { ty, ns, name, ver, quals, checksum, sub }
 }
@@ -923,6 +969,14 @@ pub fn inject(r: &mut Rng, t: &Tuple, sp: &Spelled, kind: &str) -> Option<String
                     (k, "x".into())
                 },
             };
+            // (when the spelling carries a checksum, the repeated key is sometimes that one: a
+            // second, well-formed checksum with another algorithm)
+            if t.checksum.is_some() && r.chance(1, 3) {
+                let k2: String = "checksum".chars().map(|c| if r.coin() { c.to_ascii_uppercase() } else { c }).collect();
+                let at = r.below(s.items.len() + 1);
+                s.items.insert(at, format!("{k2}=zz9:00"));
+                return Some(s.assemble());
+            }
             let k2: String = k.chars().map(|c| if r.coin() { c.to_ascii_uppercase() } else { c.to_ascii_lowercase() }).collect();
             if r.chance(1, 4) {
                 // three occurrences: non-empty, empty, non-empty (the empty one must not "re-arm" the key)
@@ -1008,7 +1062,16 @@ pub fn inject(r: &mut Rng, t: &Tuple, sp: &Spelled, kind: &str) -> Option<String
             match k {
                 "checksum-no-colon" => {
                     let at = r.below(entries.len() + 1);
-                    entries.insert(at, r.pick(&["abc", "00ff", "sha1", "x"]).to_string());
+                    // (also bare digests of the usual sizes: nothing may guess their algorithm)
+                    let bare = match r.below(8) {
+                        0 => "0123456789abcdef".repeat(2),
+                        1 => "0123456789ABCDEF0123".repeat(2),
+                        2 => "0123456789abcdef".repeat(4),
+                        3 => "a0".repeat(48),
+                        4 => "0123456789abcdef".repeat(8),
+                        _ => r.pick(&["abc", "00ff", "sha1", "x"]).to_string(),
+                    };
+                    entries.insert(at, bare);
                 },
                 "checksum-odd" => {
                     let at = r.below(entries.len() + 1);
